@@ -188,8 +188,15 @@ def _worker_run(args: t.Tuple[t.Any, str, int]) -> t.Tuple[t.Optional[Acc], t.Op
     try:
         _worker_mod.run_shard(shard, tier, seed, acc)  # type: ignore[union-attr]
         return acc, None
-    except BaseException:  # noqa: BLE001 - report harness breakage to the parent
+    except (HarnessError, KeyboardInterrupt, SystemExit):
         return None, f"shard {shard!r}:\n{traceback.format_exc()}"
+    except BaseException as e:  # noqa: BLE001
+        # An exception escaping from a harness body means the code under test behaved in a way the harness did not
+        # anticipate (it never happens on a tree where the property holds): report it as a violation, replayable by
+        # re-running the shard, rather than as silent breakage.
+        acc.violate(f"harness.crash.{type(e).__name__}", ["shard", shard, tier], {"traceback": traceback.format_exc()[-1500:]}, size=10**6)
+        acc.ev()
+        return acc, None
 
 
 def load_known() -> t.List[dict]:
@@ -299,7 +306,13 @@ def main(argv: t.Optional[t.List[str]] = None) -> int:
         init = getattr(mod, "worker_init", None)
         if init:
             init()
-        mod.replay(rec["case"], rec.get("seed", seed), acc)
+        if rec["case"] and rec["case"][0] == "shard":
+            try:
+                mod.run_shard(rec["case"][1], rec["case"][2], rec.get("seed", seed), acc)
+            except BaseException as e:  # noqa: BLE001
+                acc.violate(f"harness.crash.{type(e).__name__}", rec["case"], {"traceback": traceback.format_exc()[-1500:]})
+        else:
+            mod.replay(rec["case"], rec.get("seed", seed), acc)
         if acc.violation_count:
             for k, lst in acc.violations.items():
                 for e in lst:
